@@ -217,7 +217,8 @@ FnBigL1 == SetToSeq({C2(f, Current, Ref(k)) : f \in {"sort_by", "max_by", "min_b
 DocsFnBig == {BigArr(n) : n \in {12, 13, 20, 33}} \cup {BigNums(n) : n \in {13, 21}} \cup {BigStrs(n) : n \in {13, 21}}
 
 (* C10: the full matrix name x arity x argument-type tuple, decoded from the index *)
-Reps == <<Lit(Null), Lit(Bool(TRUE)), Lit(I(0)), Lit(S(cA)), Lit(A0), Lit(A1(I(1))), Lit(A1(S(cA))), Lit(A2(A1(I(1)), O0)), Lit(O0), Lit(O1(cA, I(1))), Ref(fA)>>
+Reps == <<Lit(Null), Lit(Bool(TRUE)), Lit(I(0)), Lit(S(cA)), Lit(A0), Lit(A1(I(1))), Lit(A1(S(cA))), Lit(A2(A1(I(1)), O0)), Lit(O0), Lit(O1(cA, I(1))), Ref(fA),
+         Lit(A2(I(1), Null))>>        \* an array that is neither array-of-number nor array-of-string because of a null element
 NR == Len(Reps)
 MxNames == <<"abs", "avg", "ceil", "contains", "ends_with", "floor", "join", "keys", "length", "map", "max", "max_by", "merge", "min", "min_by",
              "not_null", "reverse", "sort", "sort_by", "starts_with", "sum", "to_array", "to_string", "to_number", "type", "values">>
@@ -237,7 +238,7 @@ MxTotal == MxNNames * TupCount(MaxArity)
 MxAt(i) == Fn(MxNameCps((i \div TupCount(MaxArity)) + 1), TupAt(i % TupCount(MaxArity)))
 (* the same matrix with the arguments taken from document fields (JSON representatives only) *)
 MxDocL1 == SetToSeq(UNION {{Fn(MxNameCps(n), SubSeq(<<fA, fB, fC>>, 1, a)) : a \in 0..3} : n \in 1..MxNNames})
-RepVals == {Null, Bool(TRUE), I(0), S(cA), A0, A1(I(1)), A1(S(cA)), A2(A1(I(1)), O0), O0, O1(cA, I(1))}
+RepVals == {Null, Bool(TRUE), I(0), S(cA), A0, A1(I(1)), A1(S(cA)), A2(A1(I(1)), O0), O0, O1(cA, I(1)), A2(S(cA), Null)}
 DocsMx == {Obj({<<cA, x>>, <<cB, y>>, <<cC, z>>}) : x \in RepVals, y \in RepVals, z \in (IF Thorough THEN RepVals ELSE {Null, S(cA), A1(I(1))})}
 (* _by functions: key expressions x arrays of length 0..3 *)
 ByElems == {I(1), S(cA), Null, O1(cA, I(1)), O1(cA, S(<<120>>)), O1(cA, Null), O1(cA, I(0))}
@@ -325,7 +326,7 @@ RoL1 == SetToSeq(
        C2("not_null", fA, fB), C2("not_null", fC, fA), Proj(Flat(fA), Identity), Proj(Flat(Current), Identity), SliceOf(fA, NoneP, NoneP, IntP(-1)),
        SliceOf(Current, IntP(1), NoneP, NoneP), Proj(fA, Identity), VProj(Current, Identity), Filt(fA, Identity, Current),
        Fn(NameCps["merge"], <<fA, fB, fA>>), C2("ends_with", fA, fB), Cmp("eq", fA, fB), MSL(<<fA, fB>>), MSH(<<KV(cA, fA)>>)})
-RoNS == 12
+RoNS == 14
 RoDim(s) == 1
 RoWrap(s, x, k) ==
   CASE s = 1 -> Pipe(x, IdxI(0))
@@ -340,6 +341,9 @@ RoWrap(s, x, k) ==
     [] s = 10 -> MSL(<<x, x>>)
     [] s = 11 -> Pipe(x, Proj(Flat(Current), Identity))
     [] s = 12 -> C2("merge", x, fA)
+    \* a projection DIRECTLY over the value of x (a built-in that returns the document's own array: to_array, not_null, ||) that writes its results somewhere
+    [] s = 13 -> Proj(x, fA)
+    [] s = 14 -> Proj(x, Identity)
 RoVals == {O0, A0, A3(I(3), I(1), I(2)), A3(S(cB), S(cAB), S(cA)), A3(I(3), S(cA), I(1)), A3(A2(I(2), I(1)), A2(S(cB), S(cA)), A0),
            A3(O2(cA, I(2), cB, I(1)), O2(cA, I(1), cB, I(2)), O1(cA, I(0))), O2(cA, I(1), cB, I(2)), O2(cB, I(3), cC, I(4)), S(cAB), I(2), Null,
            A2(O2(cA, I(2), cB, I(1)), O1(cA, S(cA))), A3(I(2), Null, I(1))}
